@@ -6,10 +6,11 @@ COMPONENTS = ["s_pickerwrapper"]
 T4 = ["PickerWrapper"]
 PROOF_MODULES = ["GrpcProofs.Properties.C32"]
 THEOREMS = ["GrpcProofs.C32." + t for t in (
-    "picker_used_ge_gen_at_start_or_last_block", "picker_used_is_published_picker", "repick_only_on_newer_picker",
-    "returns_transport_only_if_ready_at_return", "blocks_rather_than_fails", "blocking_result_blocks_until_newer_picker",
-    "failfast_nonstatus_is_unavailable", "status_error_ends_rpc", "woken_by_every_update", "blocked_only_without_newer_picker",
-    "restricted_codes_are_a54")]
+    "stamps_are_current", "picker_used_ge_gen_at_start_or_last_block", "picker_used_is_published_picker",
+    "repick_only_on_newer_picker", "returns_transport_only_if_ready_at_return", "returned_transport_was_ready",
+    "blocks_rather_than_fails", "blocking_result_blocks_until_newer_picker", "not_ready_subconn_blocks",
+    "failfast_nonstatus_is_unavailable", "status_error_ends_rpc", "woken_by_every_update",
+    "blocked_only_without_newer_picker", "restricted_codes_are_a54")]
 DESIGN_REF = "DESIGN.md section 8, C32"
 TECHNIQUE = ("Lean 4 theorems over an interleaving model of pickerWrapper.pick (program points of the pick loop, generations as "
              "naturals, any number of concurrent picks, every action sequence), proved by an inductive invariant over the trace; "
@@ -216,7 +217,7 @@ def directed():
 
 
 def gen(rng, tier):
-    n_rand = {"quick": 300, "thorough": 6000, "search": 3000}[tier]
+    n_rand = {"quick": 500, "thorough": 40000, "search": 12000}[tier]
     for tag, ops in directed():
         yield Case("s_pickerwrapper", ops, tag)
     for i in range(n_rand):
